@@ -124,7 +124,12 @@ def run_check(prop, tier, replay_file):
         return 1 if out.get('fails') else 0
 
     # 3. correspondence + monitors on the real code
-    outcome = mod.run(ctx)
+    try:
+        outcome = mod.run(ctx)
+    except AttachError as e:
+        outcome = Outcome()
+        outcome.diffs.append({'case': None, 'impl': str(e), 'model': None,
+                              'where': 'cannot attach the instrumentation: ' + str(e)})
     outcome.merge(scenarios.run_scenarios(prop, tier == 'quick'))
     if outcome.diffs:
         d = outcome.diffs[0]
